@@ -173,12 +173,21 @@ TEXT['C12'] = dict(
     technique='double-loop invariants with let-bound characteristic formulas, ghost arrays for the previous iterate, z3')
 
 TEXT['C17'] = dict(
-    category='other',
-    text='Bounded stand-in only so far: the real norm / energy / min-max / collector classes run on simulated process grids with '
-         'uneven blocks in every layout and are compared with an independently written serial quadrature of the global field. The '
-         'deductive weight-slice proof of DESIGN C17 is not built yet.',
-    note=BOUNDED_NOTE + 'Found and fixed the float slot index of DiagnosticCollector.collect (fix: ee34928).',
-    technique='bounded run-time checking against an independent serial quadrature under simulated MPI')
+    category='proof',
+    text='Deductive part: the constructors of l2 (4-D and 3-D), l1, nParticles and KineticEnergy are verified for the three '
+         'production orderings each (extents, starts and ends symbolic): every entry of the local weight array equals the GLOBAL '
+         'trapezoid weight (first/last half cell, interior (dx_k + dx_{k-1})/2, non-uniform axes) at the entry\'s own global r index '
+         'times r, times the global v weight at its own global v index (times v^2 for the kinetic energy), on the layout axes that '
+         'hold r and v, all other extents 1; the angular factor is dq*dz (halved for the energy). DiagnosticCollector.collect '
+         'writes the time and the seven values of a step into column step mod saveStep and changes no other column. From these '
+         'and the exact tiling of the global index set by the local boxes (C02) the sum over processes of the local weighted sums '
+         'is the global quadrature sum for every process grid; that last step (np.sum over the local box, MPI_Reduce, '
+         'min/max with neutral elements) is covered by the bounded part only: the real classes on simulated process grids with '
+         'uneven blocks in every layout against an independently written serial quadrature of the global field.',
+    note=PROOF_NOTE + BOUNDED_NOTE + 'Assumed: the times passed to collect are whole multiples of dt (real arithmetic); MPI_Reduce. '
+         'Found and fixed the float slot index of DiagnosticCollector.collect (fix: ee34928).',
+    technique='sidecar contracts; numpy expression arrays (slices, broadcasting, np.array with a starred array, .flat assignment) '
+              'executed symbolically against a spec function for the trapezoid weights; bounded run-time checking under simulated MPI')
 TEXT['C18'] = dict(
     category='other',
     text='Bounded stand-in only so far: checkpoint write/load across process counts (bitwise), latest/requested checkpoint selection, '
